@@ -1,6 +1,7 @@
 import sys
 
 import python_minifier.ast_compat as ast
+from python_minifier.ast_annotation import set_parent
 
 from python_minifier.transforms.suite_transformer import SuiteTransformer
 from python_minifier.util import is_constant_node
@@ -30,6 +31,13 @@ class RemoveDebug(SuiteTransformer):
         if isinstance(node.test, ast.Name) and node.test.id == '__debug__':
             return True
 
+        if not isinstance(node.test, ast.Compare):
+            return False
+
+        # Only comparisons of __debug__ itself can be decided
+        if not isinstance(node.test.left, ast.Name) or node.test.left.id != '__debug__':
+            return False
+
         if isinstance(node.test, ast.Compare) and len(node.test.ops) == 1 and isinstance(node.test.ops[0], ast.Is) and self.constant_value(node.test.comparators[0]) is True:
             return True
 
@@ -41,9 +49,23 @@ class RemoveDebug(SuiteTransformer):
 
         return False
 
+    def without_debug(self, node_list, parent):
+        statements = []
+
+        for node in node_list:
+            if self.can_remove(node):
+                # When __debug__ is False the else branch is what would be executed
+                for statement in self.without_debug(node.orelse, parent):
+                    set_parent(statement, parent)
+                    statements.append(statement)
+            else:
+                statements.append(self.visit(node))
+
+        return statements
+
     def suite(self, node_list, parent):
 
-        without_debug = [self.visit(a) for a in filter(lambda n: not self.can_remove(n), node_list)]
+        without_debug = self.without_debug(node_list, parent)
 
         if len(without_debug) == 0:
             if isinstance(parent, ast.Module):
